@@ -2,6 +2,7 @@ package c16
 
 import (
 	"math"
+	"math/big"
 	"regexp"
 	"strconv"
 	"strings"
@@ -117,6 +118,12 @@ func registerMatchers() {
 	// NaN itself are stored as 0 in integer-typed elements.
 	run.RegisterMatcher("c16.storeNaNAsZero", func(f *run.Failure) bool {
 		in, ok := inputOf(f)
+		if ok && in.GoArg != nil {
+			// the same store with a NaN that originates in Go
+			g := in.GoArg
+			return g.Shape == "store" && rb.IsIntType(g.T) && rb.IsFloatType(g.Src.T) && g.Src.Float() != g.Src.Float() &&
+				strings.HasPrefix(f.Actual, "silent: NaN denotes no ") && strings.HasSuffix(f.Actual, ":0")
+		}
 		op, ok2 := failingOp(f, in)
 		if !ok || !ok2 || !isStorePath(f.Site) || !strings.HasPrefix(f.Actual, "silent (NaN denotes no ") || op.V == nil {
 			return false
@@ -373,6 +380,44 @@ func registerMatchers() {
 		}
 		_ = op
 		return false
+	})
+}
+
+func init() {
+	// toReflectValue converts for the 64-bit targets through float64
+	// (toIntegerFloat): a Go-origin int64/uint64 beyond 2^53 stored into an
+	// int/int64/uint/uint64 element is rounded to the nearest double, or refused
+	// when that double is 2^63 (2^64) although the integer itself fits.
+	run.RegisterMatcher("c16.storeGoIntegerThroughFloat", func(f *run.Failure) bool {
+		in, ok := inputOf(f)
+		if !ok || in.GoArg == nil || in.GoArg.Shape != "store" || !rb.IsIntType(in.GoArg.Src.T) {
+			return false
+		}
+		g := in.GoArg
+		switch g.T {
+		case "int", "int64", "uint", "uint64":
+		default:
+			return false
+		}
+		i := g.Src.Int()
+		if new(big.Int).Abs(i).Cmp(new(big.Int).Lsh(big.NewInt(1), 53)) <= 0 {
+			return false
+		}
+		d := rb.NearestFloat64(new(big.Rat).SetInt(i))
+		rounded := rb.RatOfFloat(d).Num()
+		lo, hi := rb.IntRange(g.T)
+		if rounded.Cmp(lo) < 0 || rounded.Cmp(hi) > 0 {
+			return strings.HasPrefix(f.Actual, "spurious RangeError") || strings.HasPrefix(f.Actual, "refused although")
+		}
+		return strings.HasPrefix(f.Actual, "wrong: want "+g.T+":"+i.String()+", received "+g.T+":"+rounded.String())
+	})
+	// a parameter of type *interface{}: the converted value is boxed in a pointer
+	// to its dynamic type (*float64, *int64 ...), reflect.Call panics and the text
+	// is thrown as a plain string.
+	run.RegisterMatcher("c16.ptrToInterfaceParamRawPanic", func(f *run.Failure) bool {
+		in, ok := inputOf(f)
+		return ok && in.GoArg != nil && in.GoArg.Shape == "ptr" && in.GoArg.T == "any" &&
+			strings.HasPrefix(f.Actual, "throws nonerror:string:reflect: Call using *") && strings.HasSuffix(f.Actual, "as type *interface {}")
 	})
 }
 
